@@ -1137,6 +1137,12 @@ M('C09', 'compress_svd overwrites the accumulated error in the infinite sweep (r
   "                trunc_err = self.set_svd_theta(i, theta, trunc_par, update_norm=False)\n        else:\n            raise NotImplementedError('unsupported boundary conditions '",
   'MPS-errflow')
 
+M('C10', 'calc_H_MPO_from_bond overwrites the right on-site part (round-4 seed a)', MODEL,
+  "onsite_terms[i] = add_with_None_0(onsite_terms[i], onsite_R)", "onsite_terms[i] = onsite_R", 'ACCUM-mixed')
+
+M('C10', 'add_local_term: h.c. term converted with the index reduced modulo N (round-4 seed b)', MODEL,
+  "self.lat.mps2lat_idx(i)) for op, i in reversed(term)]", "self.lat.mps2lat_idx(i % N)) for op, i in reversed(term)]", 'INDEX-wrap')
+
 # ---------------------------------------------------------------- C16 / C19
 M('C16', 'GMRES restart: relative residual norm used for normalisation (round-3 seed b)', KRY,
   """        self.total_error.append([npc.norm(self.rs[-1]) / self.b_norm])
